@@ -47,6 +47,7 @@ class Stacker(Transformer):
         self.dims_mapping.update({d: tuple() for d in self.dims_out})
         self.coords_in = {}
         self.coords_out = {}
+        self.vars_in = {}
         self.data_type = None
 
     def get_serialization_attrs(self) -> dict:
@@ -56,6 +57,7 @@ class Stacker(Transformer):
             dims_mapping=self.dims_mapping,
             coords_in=self.coords_in,
             coords_out=self.coords_out,
+            vars_in=self.vars_in,
             data_type=self.data_type,
         )
 
@@ -308,6 +310,12 @@ class Stacker(Transformer):
         # Set dimensions and coordinates
         self.dims_in = X.dims
         self.coords_in = {dim: X.coords[dim] for dim in X.dims}
+        # A Dataset is stacked in the order of its variables and of each variable's dimensions
+        self.vars_in = (
+            {name: da.dims for name, da in X.data_vars.items()}
+            if isinstance(X, xr.Dataset)
+            else {}
+        )
 
         return self
 
@@ -337,6 +345,13 @@ class Stacker(Transformer):
 
         # Check if data to be transformed has the same feature coordinates as the data used to fit the stacker
         self._validate_transform_feature_coords(X)
+
+        # Bring a Dataset into the layout seen at fit; stacking follows the layout of the data
+        if self.vars_in:
+            X = X[list(self.vars_in)]
+            X = X.assign(
+                {name: X[name].transpose(*dims) for name, dims in self.vars_in.items()}
+            )
 
         # Stack data
         sample_dims = self.dims_mapping[self.sample_name]
